@@ -44,7 +44,7 @@ var probes = []string{"\x00\x01", "a\x01", "aaa", "abb", "k", "k000", "kz", "\x7
 var scanPrefixes = []string{"", "\x00", "a", "ab", "abc", "b", "k", "k0", "k1", "k4", "\x80", "\xff", "z", "\xff\xff\xff"}
 
 func Run(k *report.Check) {
-	k.Rule = "tables: runs of the first n keys (n=0..50) of a 56-key universe (empty, binary, >=0x80, prefix-related keys), tombstone masks exhaustive for n<=8 and single/double beyond, written whole and split with every target size for runs <=12; every universe/probe key looked up, every prefix scanned, again after the descriptor's JSON round trip. WAL: every sequence over put/delete/cut/truncate/rotate+save up to the depth, every legal start marker. non-trivial = distinct (n, tombstone mask, target size) with n>=2, and distinct WAL histories containing a truncate or a second rotate"
+	k.Rule = "tables: runs of n keys (n=0..50; the n/2 smallest and n/2 largest) of a 56-key universe (empty, binary, >=0x80, prefix-related keys), tombstone masks exhaustive for n<=8 and single/double beyond, written whole and split with every target size for runs <=12; every universe/probe key looked up, every prefix scanned, again after the descriptor's JSON round trip. WAL: every sequence over put/delete/cut/truncate/rotate+save up to the depth, every legal start marker. non-trivial = distinct (n, tombstone mask, target size) with n>=2, and distinct WAL histories containing a truncate or a second rotate"
 	k.Assumptions = []string{"storage.MemoryFilesystem stands for the file systems; bytes outside the universe not explored", "a WAL start marker is legal when it is >= the largest truncation point and <= the last sequence number (how dkv.DB uses it)"}
 	k.Budget(120, 1200)
 	k.Explore("table/whole", mc.Config{}, nil, tableWhole)
@@ -53,10 +53,26 @@ func Run(k *report.Check) {
 	k.Explore(fmt.Sprintf("wal/d=%d", k.Pick(6, 7)), mc.Config{}, k.Pick(6, 7), walBody)
 }
 
+// pickOrder takes the universe alternately from both ends, so that a run of n keys holds the
+// n/2 smallest and the n/2 largest keys (empty key, 00.., ..ff, ffff): short runs too contain
+// keys and prefixes at both extremes of the byte order.
+var pickOrder = func() []int {
+	var o []int
+	for lo, hi := 0, len(universe)-1; lo <= hi; lo, hi = lo+1, hi-1 {
+		o = append(o, lo)
+		if hi != lo {
+			o = append(o, hi)
+		}
+	}
+	return o
+}()
+
 func mkRun(n int, mask uint64) []*ent {
 	var es []*ent
-	for i := 0; i < n; i++ {
-		e := &ent{k: []byte(universe[i]), seq: uint64(100 + (i*7)%13)}
+	idx := slices.Clone(pickOrder[:n])
+	slices.Sort(idx)
+	for i, ui := range idx {
+		e := &ent{k: []byte(universe[ui]), seq: uint64(100 + (i*7)%13)}
 		if mask&(1<<uint(i)) != 0 {
 			e.del = true
 		} else if i%3 == 0 {
